@@ -53,7 +53,7 @@ template <class F> inline Q adapt(F& f, Q a, Q b, Q whole, int depth, long& eval
   Q c = (a + b) / 2, l = panel(f, a, c), r = panel(f, c, b), two = l + r;
   evals += 2 * gl().n;
   Q d = fabsq(two - whole);
-  if (d <= 1e-24Q * fabsq(two) || depth >= 400 || !(fabsq(two) > 0)) return two;
+  if (d <= 1e-24Q * fabsq(two) || depth >= 1200 || !(fabsq(two) > 0)) return two;
   return adapt(f, a, c, l, depth + 1, evals) + adapt(f, c, b, r, depth + 1, evals);
 }
 // integral of f over [a,b] (a <= b or a > b both fine)
